@@ -1,18 +1,31 @@
-"""C15: the model-vs-code correspondence and the monitor are repeated with the configuration
-variable set to 0, 2, 3 and 7 in separate harness processes (the default run is the main stage)."""
+"""The model-vs-code correspondence, the width-spec comparison and a monitor are repeated with the
+configuration variable EastAsianAmbiguousWidth set to other values than the default, in separate
+harness processes (the default run is the main stage).
+C15: 0, 2, 3 and 7. C06 (whose width model has the case "EastAsianAmbiguousWidth if Ambiguous"): 0 and 2.
+C10 (U+FFFD is East Asian Ambiguous, so the width of an ill-formed byte depends on the setting): 2."""
 import json, os, subprocess
+
+CONF = {
+    "C15": dict(settings=(0, 2, 3, 7), stages="RW,E5,WIDTHSPEC", only="fg,st,sts,sw", monitors="", small=(2,)),
+    "C06": dict(settings=(0, 2), stages="RW,E5,WIDTHSPEC", only="fg,st,sts,sw", monitors="C06", small=(2,)),
+    "C10": dict(settings=(2,), stages="E5", only="fg,st,sts,sw", monitors="C10", small=(2,)),
+}
 
 
 def run(ctx, ob):
     evals = 0
     fails = []
     n = "3000" if ctx["tier"] == "quick" else "40000"
-    for k in (0, 2, 3, 7):
+    conf = CONF[ctx.get("pid", "C15")]
+    for k in conf["settings"]:
         out = os.path.join(ctx["BUILD"], "result_amb%d.json" % k)
         if os.path.exists(out):
             os.remove(out)
         cmd = [os.path.join(ctx["BUILD"], "harness"), "-facts", os.path.join(ctx["BUILD"], "facts.json"), "-driver", os.path.join(ctx["LEAN"], ".lake/build/bin/driver"),
-               "-amb", str(k), "-seed", str(ctx["seed"] + k), "-tier", ctx["tier"], "-n", n, "-stages", "RW,E5,WIDTHSPEC", "-only", "fg,st,sts,sw", "-out", out]
+               "-amb", str(k), "-seed", str(ctx["seed"] + k), "-tier", ctx["tier"], "-n", n, "-stages", conf["stages"], "-only", conf["only"], "-out", out,
+               "-small=%s" % ("true" if k in conf["small"] else "false")]
+        if conf["monitors"]:
+            cmd += ["-monitors", conf["monitors"]]
         p = subprocess.run(cmd, capture_output=True, text=True, timeout=3000)
         if not os.path.exists(out):
             ob.add("EastAsianAmbiguousWidth=%d: harness run" % k, False, p.stdout[-1500:] + p.stderr[-1500:], "correspondence")
@@ -27,4 +40,11 @@ def run(ctx, ob):
                 for mm in s["mismatches"] or []:
                     hx = mm["op"].split()[-1]
                     fails.append(dict(kind="widthspec amb=%d" % k, input_hex=hx, input_go=mm.get("note", ""), detail="EastAsianAmbiguousWidth=%d: %s real=%s documented=%s %s" % (k, mm["op"], mm["real"], mm["model"], mm.get("note", ""))))
-    return fails, {"evaluations": evals, "settings_checked": [0, 1, 2, 3, 7]}
+        for m in r.get("monitors") or []:
+            evals += m["evaluations"]
+            ob.add("EastAsianAmbiguousWidth=%d: monitor %s on the real code (%d inputs)" % (k, m["property"], m["evaluations"]), m["failure_count"] == 0,
+                   json.dumps((m["failures"] or [])[:4], indent=1), "oracle")
+            for f in m["failures"] or []:
+                fails.append(dict(kind="monitor amb=%d" % k, input_hex=f["input_hex"], input_go=f["input_go_quoted"],
+                                  detail="EastAsianAmbiguousWidth=%d: %s" % (k, f["detail"])))
+    return fails, {"evaluations": evals, "settings_checked": sorted(set(conf["settings"]) | {1})}
